@@ -270,6 +270,7 @@ class World:
         from yaql.language import expressions as X
         self.case = case
         self.probe_calls = 0
+        self._names = None
         if cold:
             # a context chain nobody has evaluated anything in yet: fresh
             # FunctionDefinition clones (first-use / lazy-initialisation
@@ -332,17 +333,13 @@ class World:
         return out
 
     def snapshot(self):
+        """Public-interface snapshot of the shared chain."""
+        if self._names is None:
+            self._names = synth.known_function_names(self.P)
         snap = []
         for c in self.chain():
-            data = getattr(c, '_data', None)
-            if data is None:
-                data = {k: c[k] for k in c.keys()}
-            funcs = getattr(c, '_functions', {})
-            snap.append((
-                {k: (id(v), core.jdump(ser.ser_value(v)))
-                 for k, v in data.items()},
-                {k: frozenset(map(id, v)) for k, v in funcs.items()},
-                frozenset(getattr(c, '_exclusive_funcs', ()))))
+            snap.append(synth.public_snapshot(
+                c, self._names, lambda v: core.jdump(ser.ser_value(v))))
         return snap
 
 
